@@ -186,6 +186,7 @@ func runCompose(sw *shardWriter, j *jb, data []byte, kind int, seed int64, share
 // runComposeHist: as runCompose; with pre != nil the program's (long-lived) Buffer has first been through the same kind
 // of decoder on the document pre. segs, when given, is the run-length form of data (documents of the depth family).
 func runComposeHist(sw *shardWriter, j *jb, data []byte, segs []seg, pre []seg, kind int, seed int64, shareBuf bool, st *genStats) {
+	data = relayout(data)
 	orig := append([]byte{}, data...)
 	rng := rand.New(rand.NewSource(seed))
 	pg := mkProg(kind, rng, shareBuf)
